@@ -31,14 +31,15 @@ ShapeOf(e) == IF e.sh = "typed" THEN Typed ELSE Generic
 \* per-property conjuncts of an event; FailedProps lists the tags whose conjunct is false
 ValueProps(e) ==
   LET v == e.v IN
-  [C04 |-> IF e.generic THEN Valid(v) ELSE ValidParts(v),
+  [C06 |-> (e.generic => "display_panic" \notin DOMAIN e),           \* Display of a built-in type parameter never panics
+   C04 |-> IF e.generic THEN Valid(v) ELSE ValidParts(v),
    C03 |-> (~e.generic \/ (e.str = Render(v) /\ PrintableAscii(e.str) /\ QSorted(v.quals))),
    C07 |-> (e.origin # "parse" \/ (NoBadSeg(v.ns, FALSE) /\ NoBadSeg(v.sub, TRUE)))]
 ParseProps(e) ==
   LET jd == Judge(e.s, ShapeOf(e), LcTab(e))
       out == e.out
       okv == "ok" \in DOMAIN out /\ out.ok
-  IN [C06 |-> "panic" \notin DOMAIN out,
+  IN [C06 |-> "panic" \notin DOMAIN out /\ "display_panic" \notin DOMAIN out,
       C02 |-> (jd.j = "acc" => (okv /\ out.v = jd.v /\ out.str = jd.str)),
       C05 |-> ((jd.j = "err" => ("ok" \in DOMAIN out /\ ~out.ok /\ out.err = jd.err))
                /\ (jd.j = "rej" => ("ok" \in DOMAIN out /\ ~out.ok))),
@@ -59,7 +60,7 @@ BseqProps(e) ==
       out == e.out
       okv == "ok" \in DOMAIN out /\ out.ok
       exp == IF run.ok THEN BuildF(sh, run.b.st, run.b.parts, tab) ELSE run
-  IN [C06 |-> "panic" \notin DOMAIN out,
+  IN [C06 |-> "panic" \notin DOMAIN out /\ "display_panic" \notin DOMAIN out,
       C09 |-> /\ (run.ok => Faithful(run.b, run.last))
               /\ (okv <=> (run.ok /\ ExpectedOk(sh, run.last, tab)))
               /\ (okv => out.v = ExpectedValue(sh, run.last, tab) /\ out.v = exp.v)
